@@ -32,6 +32,9 @@ struct Shared {
     make_stale: Cell<bool>,
     invalidate: Cell<bool>,
     remove_first: Cell<bool>,
+    /// the rewiring child leaves the dependency set alone in its next run (an invalidated
+    /// dependency then stays in place)
+    lazy: Cell<bool>,
     /// current value of every pool entry, written by the harness before each stabilise
     expected: RefCell<Vec<i64>>,
     current: RefCell<Vec<Option<DepRec>>>,
@@ -261,6 +264,9 @@ fn inner(seed: u64, actions: &mut Vec<String>, stats: &mut (bool, u64, u64), fau
         let order = Cell::new(seed);
         move |_, _, _| {
             sh.tick("child_fn");
+            if sh.lazy.replace(false) {
+                return;
+            }
             let desired = sh.desired.borrow().clone();
             let mut slots: Vec<usize> = (0..SLOTS).collect();
             // visit the slots in a varying order, so that removals hit first/middle/last positions
@@ -369,8 +375,18 @@ fn inner(seed: u64, actions: &mut Vec<String>, stats: &mut (bool, u64, u64), fau
     let mut nontrivial = false;
     let mut round = 0u32;
     let n_actions = 15 + rng.below(45);
+    // the desired configuration was edited since the child last reconciled it
+    let mut desired_dirty = true;
+    // Some(j): in the coming stabilise bind j re-runs while the child does not rewire
+    let mut lazy_round: Option<usize> = None;
+    let mut force_stabilise = false;
+    let mut invalid_by_dependency = false;
+    let mut quiet_since_stabilise = false;
     for _ in 0..n_actions {
-        match rng.below(12) {
+        let code = if std::mem::take(&mut force_stabilise) { 11 } else { rng.below(12) };
+        // nothing has been touched since the last stabilise
+        let quiet = std::mem::replace(&mut quiet_since_stabilise, false);
+        match code {
             0 | 1 | 2 => {
                 let s = rng.below(SLOTS);
                 let can_bind = round > 0;
@@ -385,6 +401,7 @@ fn inner(seed: u64, actions: &mut Vec<String>, stats: &mut (bool, u64, u64), fau
                     })
                 };
                 sh.desired.borrow_mut()[s] = v;
+                desired_dirty = true;
                 gen.update(|g| g + 1);
                 if rng.chance(1, 4) {
                     sh.remove_first.set(true);
@@ -437,6 +454,21 @@ fn inner(seed: u64, actions: &mut Vec<String>, stats: &mut (bool, u64, u64), fau
                 let n = if join_target < 3 { xs[join_target].watch() } else { ms[join_target - 3].clone() };
                 outer.set(n);
                 actions.push(format!("join->{join_target}"));
+            }
+            10 if quiet && rng.chance(1, 2) && e_obs.is_some() && !invalidated && !desired_dirty && round > 0 && !sh.make_stale.get() && !sh.invalidate.get() => {
+                // a bind whose node is (possibly) a current dependency re-runs, and the rewiring
+                // child does not replace the dependency in that stabilise: an expert node that
+                // recomputes with an invalidated dependency becomes invalid itself
+                let j = rng.below(2);
+                let nv = (cvals[j] + 1 + rng.range(0, 3)) % 6;
+                if nv != cvals[j] {
+                    cvals[j] = nv;
+                    cs[j].set(nv);
+                    sh.lazy.set(true);
+                    lazy_round = Some(j);
+                    force_stabilise = true;
+                    actions.push(format!("c{j}:={nv} (the child will not rewire)"));
+                }
             }
             9 if rng.chance(1, 6) && e_obs.is_some() && !invalidated => {
                 sh.invalidate.set(true);
@@ -505,6 +537,18 @@ fn inner(seed: u64, actions: &mut Vec<String>, stats: &mut (bool, u64, u64), fau
                     }
                 }
                 st.stabilise();
+                quiet_since_stabilise = true;
+                if let Some(j) = lazy_round.take() {
+                    sh.lazy.set(false);
+                    let kept_invalid = sh.current.borrow().iter().flatten().any(|d| d.pool == 6 + j);
+                    if kept_invalid && e_obs.is_some() {
+                        // the reference computation (a sum over an invalidated node) is invalid
+                        invalidated = true;
+                        invalid_by_dependency = true;
+                    }
+                } else if (e_obs.is_some() && !invalidated) || m_obs.is_some() {
+                    desired_dirty = false;
+                }
                 rounds.push((round, sh.ticks.get() - ticks_before));
                 actions.push(format!("stabilise#{round} (recomputes={})", sh.recomputes_this_round.get()));
                 stats.1 += sh.recomputes_this_round.get() as u64;
@@ -533,7 +577,11 @@ fn inner(seed: u64, actions: &mut Vec<String>, stats: &mut (bool, u64, u64), fau
                     let got = o.try_get_value();
                     if invalidated {
                         if got != Err(ObserverError::ObservingInvalid) {
-                            return Err(format!("after invalidate() the expert node's observer returned {:?}", got));
+                            return Err(format!(
+                                "{} the expert node's observer returned {:?}",
+                                if invalid_by_dependency { "the expert node recomputed while one of its dependencies was an invalidated node (its bind had re-run and the child did not replace it), but" } else { "after invalidate()" },
+                                got
+                            ));
                         }
                         if let Some(a) = &above_obs {
                             if a.try_get_value() != Err(ObserverError::ObservingInvalid) {
